@@ -241,6 +241,30 @@ def create_equation_from_terms(terms):
     return eqn
 
 
+def format_parameter(value, digits=4):
+    """
+    Format a numeric parameter for use inside an equation.
+
+    Uses a fixed number of decimals when that represents the value exactly; otherwise falls back to the
+    full-precision representation, so that a parameter is never silently rounded.
+
+    >>> format_parameter(.2)
+    '0.2000'
+    >>> format_parameter(.9, digits=3)
+    '0.900'
+    >>> format_parameter(.6123456)
+    '0.6123456'
+
+    :param value: float
+    :param digits: int
+    :return: str
+    """
+    txt = ('%0.' + str(digits) + 'f') % (value,)
+    if float(txt) == float(value):
+        return txt
+    return repr(float(value))
+
+
 def get_invalid_variable_names():
     """
     Get a list of invalid variable names for use in sfc_model equations.
